@@ -19,16 +19,20 @@ type Outcome struct {
 	Items   [][]string
 	After   []int // which writer finished right before Counts[i] (-1 for the initial dump)
 	Steps   int
-	// Foreign: at some step the item tracker held an action for a key the writer never operated on (the B-tree
-	// registered another item: inner-node removal tracks the leaf successor, a tracked read aliases a slot that later
-	// shifts). Such a case is outside the commit-loop model; its protocol lines are not emitted.
+	// Foreign: at some step the item tracker held an update/remove/add for a key the writer did not update/remove/add
+	// (or an operation that reported success was not tracked under its key): the B-tree registered ANOTHER item's
+	// identity. This was finding C04-F4 (inner-node removal tracked the leaf successor; repaired in /repo a8e6b837).
+	// It is evidence for the direct oracle only: the case is tied to the model like every other. Tracked READS are
+	// not looked at (their key is seen through a slot pointer, see trackedArg).
 	Foreign bool
-	// NodeRemovalRolledBack: a writer with an injected failure had a REMOVED node in its write set. Its rollback
-	// (rollbackRemovedNodes) zeroes the handle's WorkInProgressTimestamp although the handle still carries the previous
-	// commit's inactive id, after which no writer can allocate an id on that node again (C07's territory: blockage
-	// after a failed commit). Outside the commit-loop model; the case's protocol lines are not emitted.
-	NodeRemovalRolledBack bool
-	Unfinished            bool
+	// ReadAliased: at some step the tracked READS of a writer did not name exactly the keys it read. The tracker keeps
+	// a pointer into the node's slot array for a read, and the merge replay (Go map order) may replay an add/remove
+	// after the read and shift the slots under it; a further refetch then looks the item up under the wrong key and
+	// fails "failed to find item" (slot-pointer aliasing: C38's/C17's defect, open). The outcome depends on map
+	// order, so such a case is outside the commit-loop model: its protocol lines are not emitted (the direct oracle
+	// still judges it).
+	ReadAliased bool
+	Unfinished  bool
 }
 
 func pagesArg(ps []string) string {
@@ -142,14 +146,9 @@ func Drive(ctx context.Context, s *hx.Session, sc Scenario, sched []int, header 
 	var hits []string
 	emit := func(op, out string) { lines = append(lines, pair{op, out}) }
 	defer func() {
-		if o.Foreign {
-			s.BeginCase(caseHeader + " not-modelled=btree-tracks-another-item")
-			s.Hit("excluded:btree_tracks_another_item")
-			return
-		}
-		if o.NodeRemovalRolledBack {
-			s.BeginCase(caseHeader + " not-modelled=failed-commit-rolls-back-a-node-removal")
-			s.Hit("excluded:failed_commit_rolls_back_a_node_removal")
+		if o.ReadAliased {
+			s.BeginCase(caseHeader + " not-modelled=tracked-read-aliases-slot")
+			s.Hit("excluded:tracked_read_aliases_slot")
 			return
 		}
 		s.BeginCase(caseHeader)
@@ -239,11 +238,31 @@ func Drive(ctx context.Context, s *hx.Session, sc Scenario, sched []int, header 
 			emit(fmt.Sprintf("step %d pages=%s", i, pages), obs)
 		}
 		hits = append(hits, "step:"+w.stateArg())
-		if w.Spec.Fault != nil {
-			for _, pg := range w.Pages(r.Env.Canon) {
-				if strings.HasSuffix(pg, ":remove") {
-					o.NodeRemovalRolledBack = true
+		{
+			var seen, want []int
+			for _, tr := range w.Tracked() {
+				f := strings.Split(tr, ":")
+				if f[1] == "get" {
+					var k int
+					fmt.Sscan(f[0], &k)
+					seen = append(seen, k)
 				}
+			}
+			for j, op := range w.Spec.Ops {
+				if op.Kind == "get" && j < len(w.OpRes) && w.OpRes[j] == "true" {
+					dup := false
+					for _, x := range want {
+						dup = dup || x == op.Key
+					}
+					if !dup {
+						want = append(want, op.Key)
+					}
+				}
+			}
+			sort.Ints(seen)
+			sort.Ints(want)
+			if len(seen) > 0 && fmt.Sprint(seen) != fmt.Sprint(want) {
+				o.ReadAliased = true
 			}
 		}
 		for _, tr := range w.Tracked() {
@@ -263,20 +282,23 @@ func Drive(ctx context.Context, s *hx.Session, sc Scenario, sched []int, header 
 				case "upd":
 					own = own || op.Kind == "upd"
 				case "get":
-					own = own || op.Kind == "get"
+					own = true // reads are not judged
 				}
+			}
+			if f[1] == "get" {
+				own = true
 			}
 			if !own {
 				o.Foreign = true
 			}
 		}
 		if was == "new" && !w.Spec.Abort {
-			// every operation that reported success must be tracked under its own key (an inner-node removal is
-			// tracked under the successor's identity; if the writer then updates that successor the removal is not
-			// tracked at all)
+			// every update/remove/add that reported success must be tracked under its own key (before a8e6b837 an
+			// inner-node removal was tracked under the successor's identity; if the writer then updated that successor
+			// the removal was not tracked at all)
 			tr := w.Tracked()
 			for j, op := range w.Spec.Ops {
-				if j >= len(w.OpRes) || w.OpRes[j] != "true" {
+				if j >= len(w.OpRes) || w.OpRes[j] != "true" || op.Kind == "get" {
 					continue
 				}
 				found := false
@@ -385,10 +407,11 @@ func Expected(sc Scenario, writers []int, opRes func(w int) []string) []string {
 	return out
 }
 
-// OrderOps puts a writer's operations in the order remove, update, add, get. The B-tree's cursor and the item
-// pointers the tracker keeps are not stable under later slot shifts in the same node (C17's and C38's findings: a
-// tracked read aliases a slot that an add then shifts; a removal after an add can hit the cursor's stale index);
-// this order keeps the generated writers clear of those, so that what is tested is the commit loop.
+// OrderOps puts a writer's operations in the order remove, update, add, get. It is kept for ONE reason: the item
+// tracker keeps, for a tracked READ, a pointer into the node's slot array, so a get followed by an add/remove in the
+// same node makes the tracked read name another key (slot-pointer aliasing, C38's/C17's finding; after a conflict the
+// replay then looks for the wrong key). With reads last nothing shifts under them during the operations. (It is not
+// needed for the inner-node removal defect, former C04-F4, which is repaired in /repo a8e6b837.)
 func OrderOps(ops []Op) []Op {
 	rank := map[string]int{"rm": 0, "upd": 1, "add": 2, "get": 3}
 	out := append([]Op(nil), ops...)
